@@ -16,6 +16,14 @@ Fl(c, neg, n, e) == [k |-> "float", c |-> c, neg |-> neg, n |-> n, e |-> e]
 \* integers beyond the model's arithmetic range (|v| > 2^30) are carried as their decimal text: they can be written,
 \* rendered, parsed back and compared with each other; arithmetic on them is Unspecified
 BigV(txt) == [k |-> "bigint", txt |-> txt]
+\* A finite float outside the exact (dyadic, small) sub-domain is carried opaquely, identified by the bits of the
+\* float64 it is (hex text): the specification cannot compute with it, but it knows its identity, so equality between
+\* floats and the contract aton(toa(x)) = x are still decided.  Its rendering is an opaque string (OpqS).
+OpqF(bits) == [k |-> "float", c |-> "opq", neg |-> FALSE, n |-> 0, e |-> 0, bits |-> bits]
+OpqS(bits) == [k |-> "str", v |-> <<>>, of |-> bits]
+IsOpqF(v) == v.k = "float" /\ v.c = "opq"
+IsOpqS(v) == v.k = "str" /\ "of" \in DOMAIN v
+Opq(v) == IsOpqF(v) \/ IsOpqS(v)
 NaN == Fl("nan", FALSE, 0, 0)
 Inf(neg) == Fl("inf", neg, 0, 0)
 
@@ -93,6 +101,7 @@ NilOrType(a, b) == IF a.k = "nil" \/ b.k = "nil" THEN NilErr ELSE Err("type")
 NilOrType1(a) == IF a.k = "nil" THEN NilErr ELSE Err("type")
 
 Arith(op, a, b) ==
+  IF Opq(a) \/ Opq(b) THEN Unspec ELSE
   IF a.k = "int" /\ b.k = "int" THEN
      IF op = "/" /\ b.v = 0 THEN Err("zerodiv")
      ELSE IF Big(a.v) \/ Big(b.v) THEN Unspec
@@ -113,6 +122,7 @@ Mod(a, b) ==
   ELSE NilOrType(a, b)
 
 Rel(op, a, b) ==
+  IF Opq(a) \/ Opq(b) THEN Unspec ELSE
   IF IsNum(a) /\ IsNum(b) THEN
      LET c == FCmp(ToF(a), ToF(b)) IN
      Ok(BoolV(CASE op = "<" -> c = "lt" [] op = ">" -> c = "gt"
@@ -121,7 +131,11 @@ Rel(op, a, b) ==
 
 RECURSIVE WeakEq(_, _)
 WeakEq(a, b) ==      \* [val |-> BOOLEAN] or error; mirrors the documented ==
-  IF IsNum(a) /\ IsNum(b) /\ a.k # b.k THEN Ok(FCmp(ToF(a), ToF(b)) = "eq")
+  IF Opq(a) \/ Opq(b) THEN
+       (IF IsOpqF(a) /\ IsOpqF(b) THEN Ok(a.bits = b.bits)      \* finite floats are equal iff they are the same float64 (zeros are not opaque)
+        ELSE IF (IsOpqF(a) /\ b.k \in {"int", "float"}) \/ (IsOpqF(b) /\ a.k \in {"int", "float"}) THEN Ok(FALSE)   \* an opaque float is no exact one
+        ELSE Unspec)
+  ELSE IF IsNum(a) /\ IsNum(b) /\ a.k # b.k THEN Ok(FCmp(ToF(a), ToF(b)) = "eq")
   ELSE IF a.k = "arr" /\ b.k = "arr" THEN
        IF Len(a.v) # Len(b.v) THEN Ok(FALSE)
        ELSE LET RECURSIVE Go(_)
@@ -163,17 +177,17 @@ Shift(op, a, b) ==    \* op in {"<<", ">>"}
   ELSE NilOrType(a, b)
 Flip(a) == IF a.k = "int" THEN Ok(IntV(-a.v - 1)) ELSE NilOrType1(a)
 Not(a) == IF a.k = "bool" THEN Ok(BoolV(~a.v)) ELSE NilOrType1(a)
-LenOf(a) == IF a.k \in {"str", "arr"} THEN Ok(IntV(Len(a.v))) ELSE NilOrType1(a)
+LenOf(a) == IF IsOpqS(a) THEN Unspec ELSE IF a.k \in {"str", "arr"} THEN Ok(IntV(Len(a.v))) ELSE NilOrType1(a)
 Neg(a) == Arith("*", IntV(-1), a)        \* unary minus is -1 * x
 
 Index1(a, i) ==
-  IF i.k = "bigint" \/ a.k = "bigint" THEN Unspec ELSE
+  IF i.k = "bigint" \/ a.k = "bigint" \/ IsOpqS(a) THEN Unspec ELSE
   IF i.k = "nil" THEN NilErr ELSE IF i.k # "int" THEN Err("type")
   ELSE IF a.k \notin {"str", "arr"} THEN (IF a.k = "nil" THEN [err |-> "type", alt |-> "nil"] ELSE Err("type"))
   ELSE IF i.v < 0 \/ i.v >= Len(a.v) THEN Err("index")
   ELSE IF a.k = "str" THEN Ok(StrV(<<a.v[i.v + 1]>>)) ELSE Ok(a.v[i.v + 1])
 Index2(a, i, j) ==
-  IF i.k = "bigint" \/ j.k = "bigint" \/ a.k = "bigint" THEN Unspec ELSE
+  IF i.k = "bigint" \/ j.k = "bigint" \/ a.k = "bigint" \/ IsOpqS(a) THEN Unspec ELSE
   IF i.k = "nil" THEN NilErr ELSE IF i.k # "int" THEN Err("type")
   ELSE IF j.k = "nil" THEN NilErr ELSE IF j.k # "int" THEN Err("type")
   ELSE IF a.k \notin {"str", "arr"} THEN (IF a.k = "nil" THEN [err |-> "type", alt |-> "nil"] ELSE Err("type"))
@@ -208,6 +222,7 @@ RECURSIVE StripZeros(_)
 StripZeros(s) == IF Len(s) > 0 /\ s[Len(s)] = "0" THEN StripZeros(SubSeq(s, 1, Len(s) - 1)) ELSE s
 \* finite float n/2^e, 1e-4 <= |x| < 1e6 or zero: plain decimal, exact expansion
 FloatStr(f) ==
+  IF f.c = "opq" THEN Unspec ELSE
   IF f.c = "nan" THEN Ok(<<"N", "a", "N">>)
   ELSE IF f.c = "inf" THEN Ok(IF f.neg THEN <<"-", "I", "n", "f">> ELSE <<"+", "I", "n", "f">>)
   ELSE IF f.n = 0 THEN Ok(IF f.neg THEN <<"-", "0">> ELSE <<"0">>)
@@ -225,7 +240,7 @@ Render(v) ==     \* [val |-> chars] or Unspec
     [] v.k = "int" -> Ok(IntStr(v.v))
     [] v.k = "bigint" -> Ok(v.txt)
     [] v.k = "bool" -> Ok(IF v.v THEN <<"t", "r", "u", "e">> ELSE <<"f", "a", "l", "s", "e">>)
-    [] v.k = "str" -> Ok(v.v)
+    [] v.k = "str" -> (IF IsOpqS(v) THEN Unspec ELSE Ok(v.v))
     [] v.k = "fn" -> Ok(<<"f", "u", "n", "c", "t", "i", "o", "n">>)
     [] v.k = "float" -> FloatStr(v)
     [] v.k = "arr" ->
@@ -252,6 +267,7 @@ StripLead(s) == IF Len(s) > 1 /\ s[1] = "0" THEN StripLead(Tail(s)) ELSE s
 IsBigText(body) == LET t == StripLead(body) IN Len(t) > 10 \/ (Len(t) = 10 /\ LexGreater(t, TwoPow30, 1))
 NumericLooking(s) == \A i \in 1..Len(s) : IsDigit(s[i]) \/ s[i] \in {".", "+", "-", "e", "E", "x", "X", "p", "P", "_", "i", "n", "f", "I", "N", "a", "A", "F"}
 Aton(v) ==
+  IF IsOpqS(v) THEN Ok(OpqF(v.of)) ELSE      \* the contract: aton(toa(x)) = x for every finite float
   IF v.k # "str" THEN NilOrType1(v)
   ELSE LET s == v.v
            neg == Len(s) > 0 /\ s[1] = "-"
